@@ -3,7 +3,7 @@ model with nextest (NextestConfig::from_sources -> profile -> apply_build_platfo
 public API only, on generated repository + tool config files) + an oracle, written independently of
 the model, that computes the documented precedence directly from the generated structure."""
 import json, os, re, sys, tomllib
-import vlib
+import vlib, gen_tie
 from vlib import coq_list, coq_bool, decode_str
 
 PROP = "C06"
@@ -875,6 +875,10 @@ def run(tier, seed):
     chk = vlib.Check(PROP, tier, seed)
     gate = vlib.coq_gate(PROP)
     vlib.gate_or_violation(chk, gate)
+    # DESIGN 11.7 (second round): these decisions are regenerated from the Rust source and proved equal to the
+    # model's for all inputs; a failure is reported when the check finishes unless a stage below finds a
+    # concrete failing input
+    gen_tie.gate(chk, ['override_platform_guard'], gate)
     checker_cmd = "make -C coq Properties/C06.vo && coqc gen/assump_C06.v (Print Assumptions)"
     binary, err = vlib.build_harness()
     if binary is None:
